@@ -170,7 +170,12 @@ func init() {
 
 		be.Keys, be.Groups = genKeys(r, 5, coll)
 		be.Cfg = BEConfig{TTLNs: pick(r, int64(0), -1, sec, 100*ms, 3600*sec, -sec, -3600*sec), Jitter: -1, Strategy: r.IntN(3), Stats: chance(r, 0.2), Logger: chance(r, 0.1)}
-		be.Clients = [][]BEOp{genSeqOps(r, len(be.Keys), 1+r.IntN(40), false)}
+		n := 1 + r.IntN(40)
+		if genTier == "thorough" && chance(r, 0.2) {
+			n = 40 + r.IntN(80)
+		}
+
+		be.Clients = [][]BEOp{genSeqOps(r, len(be.Keys), n, false)}
 
 		return sc
 	}
